@@ -20,6 +20,12 @@ FUNCTIONS = {
             'PlateSlicer.remove', 'PlateSlicer.fill_to', 'Plate.transfer', 'Plate.remove', 'Plate.fill_to',
             'Container.transfer', 'Plate.__getitem__'],
     'C11': ['Container.fill_to', 'Container._add', 'Container._self_add'],
+    'C04': ['Container.__init__', 'Container._self_add', 'Container._add', 'Container._transfer', 'Container.transfer',
+            'Container._transfer_slice', 'Container.remove', 'Container.fill_to', 'Container.get_volume',
+            'Container.get_concentration', 'PlateSlicer._transfer', 'PlateSlicer.remove', 'PlateSlicer.fill_to',
+            'Plate.transfer', 'Plate.remove', 'Plate.fill_to', 'Slicer.apply', 'Slicer.set', 'Recipe.uses',
+            'Recipe.transfer', 'Recipe.create_container', 'Recipe.create_solution', 'Recipe.create_solution_from',
+            'Recipe.remove', 'Recipe.dilute', 'Recipe.fill_to', 'Recipe.start_stage', 'Recipe.end_stage'],
 }
 
 
@@ -45,6 +51,14 @@ def tasks(tier, pid):
         t += [('plate_transfer',) + c for c in PO.transfer_cases(tier)]
     if pid in ('C07', 'C17', 'C04'):
         t += [('plate_unary',) + c for c in PO.unary_cases(tier)]
+    if pid == 'C10':
+        t.append(('syntactic_cached',))
+    if pid == 'C04':
+        from contracts import c16_recipe as C16
+        for m, variants in C16.METHODS.items():
+            for v in variants:
+                t.append(('recipe_method', m, v, False))
+        t.append(('syntactic',))
     t.append(('canaries',))
     return t
 
@@ -58,6 +72,19 @@ def run(pid, kind, *args):
         return PO.run_transfer(pid, *args)
     if kind == 'plate_unary':
         return PO.run_unary(pid, *args)
+    if kind == 'recipe_method':
+        from contracts import c16_recipe as C16
+        out = []
+        for r in C16.run_method(*args):
+            if 'frame[arguments]' in r['name'] or r['kind'] in ('cover',) or r['verdict'] == 'unsupported':
+                out.append(dict(r, name=r['name'].replace('C16/', 'C04/')))
+        return out
+    if kind == 'syntactic_cached':
+        from contracts import c04_syntactic
+        return [dict(r, name=r['name'].replace('C04/', 'C10/')) for r in c04_syntactic.run() if 'cached-results' in r['name']]
+    if kind == 'syntactic':
+        from contracts import c04_syntactic
+        return c04_syntactic.run()
     if kind == 'canaries':
         return canaries(pid)
     raise ValueError(kind)
